@@ -12,7 +12,11 @@ fn arg(args: &[String], name: &str) -> Option<String> {
 }
 
 fn main() {
-    std::panic::set_hook(Box::new(|_| {}));
+    std::panic::set_hook(Box::new(|info| {
+        if !scen::GUARDED.with(|g| g.get()) {
+            eprintln!("harness panic: {info}");
+        }
+    }));
     let args: Vec<String> = std::env::args().collect();
     let cmd = args.get(1).map(|s| s.as_str()).unwrap_or("");
     let facs = factory::all_factories();
